@@ -14,6 +14,11 @@ typedef the targets of its target type.  No hypothesis. -/
 theorem fuel_suffices (p : Program) (cfg : Cfg) : Closed p (markAST p cfg).marks :=
   (markAST_inv p cfg).m.closed
 
+/-- More fuel than `fuelN p` changes nothing: the fuel is a proof device, not a restriction of the DFS. -/
+theorem fuel_independent (p : Program) (M : Marks) (n : Node) (hn : n ∈ allNodes p) (d : Nat) :
+    visit p (fuelN p + d) M n = visit p (fuelN p) M n :=
+  visit_fuel_ge p M n hn d
+
 /-- mark_sound (nothing needed is removed): every node of the least set `Reach` — what kept functions,
 constants, typedefs and preserved struct-likes name, closed under field types, container elements,
 typedef targets and includes — is marked. -/
@@ -58,6 +63,27 @@ theorem kept_refs_kept (p : Program) (cfg : Cfg) (hc : (markAST p cfg).crash = f
     (∀ svc ∈ (sweepFile p cfg (effMethods p cfg) (markAST p cfg) f (p.file f)).services, ∀ fn ∈ svc.fns, ∀ ty ∈ fn.types,
       ∀ x ∈ tyTargets p f ty, x ∈ (markAST p cfg).marks) :=
   kept_refs p cfg hc hu hl f hr
+
+/-- trim_resolves, "same definition as before": in the trimmed program (deleted nodes gone, include
+indices recomputed) every type of every surviving node of an included file names exactly the nodes it
+named before, include marks renumbered by `renNode` — `ResolveType` would bind it to the same
+definitions.  (`(trimProg p cfg).file f` consists of `renFile` applied to `sweepFile …`, i.e. of these
+types after `renTy`.) -/
+theorem bindings_preserved (p : Program) (cfg : Cfg) (hc : (markAST p cfg).crash = false) (hu : UniqueSvcFn p) (hl : UniqueSL p)
+    (f : Nat) (hr : InclReach p f) :
+    (∀ c ∈ (sweepFile p cfg (effMethods p cfg) (markAST p cfg) f (p.file f)).consts,
+      tyTargets (trimProg p cfg) f (renTy (keepFlags p (markAST p cfg).marks f) c.ty) =
+        (tyTargets p f c.ty).map (renNode p (markAST p cfg).marks)) ∧
+    (∀ t ∈ (sweepFile p cfg (effMethods p cfg) (markAST p cfg) f (p.file f)).typedefs,
+      tyTargets (trimProg p cfg) f (renTy (keepFlags p (markAST p cfg).marks f) t.ty) =
+        (tyTargets p f t.ty).map (renNode p (markAST p cfg).marks)) ∧
+    (∀ k, ∀ s ∈ (sweepFile p cfg (effMethods p cfg) (markAST p cfg) f (p.file f)).sl k, ∀ fd ∈ s.fields,
+      tyTargets (trimProg p cfg) f (renTy (keepFlags p (markAST p cfg).marks f) fd.ty) =
+        (tyTargets p f fd.ty).map (renNode p (markAST p cfg).marks)) ∧
+    (∀ svc ∈ (sweepFile p cfg (effMethods p cfg) (markAST p cfg) f (p.file f)).services, ∀ fn ∈ svc.fns, ∀ ty ∈ fn.types,
+      tyTargets (trimProg p cfg) f (renTy (keepFlags p (markAST p cfg).marks f) ty) =
+        (tyTargets p f ty).map (renNode p (markAST p cfg).marks)) :=
+  bindings p cfg hc hu hl f hr
 
 /-- services_nofilter: without -m every root service is marked, and every marked service is complete:
 all its functions are marked and, when it extends a service of another file, that include and that
